@@ -20,7 +20,7 @@ from overlay import HARNESS_DIR, MOUNTS
 class Harness:
     def __init__(self, name, file, props, tier="quick", timeout=600, mem=16, expect="pass",
                  desc="", functions="", bound="", stubs="", assumes="", stubbing=False,
-                 shape=None, covers_optional=()):
+                 shape=None, covers_optional=(), replay=None, flavor="debug"):
         self.name = name
         self.file = file
         self.props = props
@@ -36,6 +36,13 @@ class Harness:
         self.stubbing = stubbing
         self.shape = shape
         self.covers_optional = tuple(covers_optional)
+        # how a counterexample of this harness is replayed against the real code:
+        #   native            Kani concrete playback, executed natively (harness has no stubs, or
+        #                     only semantically transparent ones: fmt::format, panicking, from_utf8)
+        #   scenario:<name>   re-enactment through the public API by /verif/replay_tool
+        self.replay = replay or ("native" if not stubbing else "none")
+        # "debug": dev profile with debug assertions (default); "nodebug": debug-assertions = false
+        self.flavor = flavor
 
     def descriptor(self):
         d = {
@@ -52,6 +59,8 @@ class Harness:
             d["assumptions"] = self.assumes
         if self.shape is not None:
             d["shape"] = self.shape
+        if self.flavor != "debug":
+            d["profile"] = "debug-assertions = false (release-like; redb's debug-only bookkeeping compiled out)"
         if self.expect == "fail":
             d["role"] = "negative twin: must FAIL (reachability / vacuity witness)"
         return d
@@ -97,7 +106,8 @@ def parse_annotations(hf):
                     stubbing=kv.get("stubbing", "0") == "1",
                     desc=cur["desc"], functions=cur["functions"], bound=cur["bound"],
                     stubs=cur["stubs"], assumes=cur["assumes"],
-                    covers_optional=tuple(x for x in kv.get("optcover", "").split("|") if x)))
+                    covers_optional=tuple(x for x in kv.get("optcover", "").split("|") if x),
+                    replay=kv.get("replay"), flavor=kv.get("flavor", "debug")))
                 cur = keep
                 if keep is not None:
                     keep["_used"] = True
